@@ -431,6 +431,9 @@ type CaseC12 struct {
 	Layout  Layout      `json:"layout"`
 	Period  []string    `json:"period,omitempty"` // the same global -b/-e for every run: composition must hold under a period too
 	Long    bool        `json:"long,omitempty"`
+	// Slow: the log arrives a few bytes at a time with this much simulated time between reads (a pipe
+	// from a slow producer): what a report says must not depend on how long the input took to arrive
+	Slow int64 `json:"slow_delivery_ns,omitempty"`
 }
 
 var perDayShapes = []string{"reg", "reg left-aligned", "reg old", "reg -s", "reg -s --csv", "reg -f", "reg --no-totals", "reg --totals-only", "reg --shorten", "csv log", "print"}
@@ -501,6 +504,7 @@ func genC12(thorough bool) func(t *rapid.T) Case {
 			}
 		}
 		c.Long = rapid.IntRange(0, 3).Draw(t, "long_forms") == 3
+		c.Slow = rapid.SampledFrom([]int64{0, 0, 0, 0, 50e6, 300e6, 5e9, 3600e9}).Draw(t, "slow_delivery")
 		return c
 	}
 }
@@ -611,6 +615,10 @@ func (c *CaseC12) Eval(ob *Obs) []Finding {
 		w := stdWorld(bookText, render(blocks, c.Layout))
 		w.Argv = Invocation{Shape: c.Shape, El: c.El, Food: c.Food, Globals: append([]string{"--no-color"}, c.Period...), Long: c.Long}.Argv()
 		w.Order = c.Orders[runs%len(c.Orders)]
+		if c.Slow > 0 {
+			w.Files[fileIdx(&w, "log.yaml")].Plan = ReadPlan{Chunk: "fixed", MaxChunk: 24, DelayNano: c.Slow, FaultAt: -1}
+			ob.probe("slow_delivery")
+		}
 		runs++
 		return ob.run(w)
 	}
